@@ -922,15 +922,29 @@ class SyncObj(object):
                 if prevEntries[0][2] != prevLogTerm:
                     self.__sendNextNodeIdx(node, nextNodeIdx = prevLogIdx, success = False, reset=True)
                     return
-                if len(prevEntries) > 1:
+                nextNodeIdx = prevLogIdx + 1
+                if newEntries:
+                    nextNodeIdx = newEntries[-1][1] + 1
+
+                # Entries that are already in the log (same index and term) are kept,
+                # the log is truncated only from the first conflicting entry: a delayed
+                # or repeated message must not remove entries that were already acknowledged.
+                existingEntries = prevEntries[1:]
+                numSame = 0
+                while numSame < len(newEntries) and numSame < len(existingEntries) and \
+                        existingEntries[numSame][2] == newEntries[numSame][2]:
+                    numSame += 1
+                if numSame < len(newEntries) and numSame < len(existingEntries):
                     # rollback cluster changes
                     if self.__conf.dynamicMembershipChange:
-                        for entry in reversed(prevEntries[1:]):
+                        for entry in reversed(existingEntries[numSame:]):
                             clusterChangeRequest = self.__parseChangeClusterRequest(entry[0])
                             if clusterChangeRequest is not None:
                                 self.__doChangeCluster(clusterChangeRequest, reverse=True)
 
-                    self.__deleteEntriesFrom(prevLogIdx + 1)
+                    self.__deleteEntriesFrom(prevLogIdx + 1 + numSame)
+                    existingEntries = existingEntries[:numSame]
+                newEntries = newEntries[len(existingEntries):]
                 for entry in newEntries:
                     self.__raftLog.add(*entry)
 
@@ -941,11 +955,10 @@ class SyncObj(object):
                         if clusterChangeRequest is not None:
                             self.__doChangeCluster(clusterChangeRequest)
 
-                nextNodeIdx = prevLogIdx + 1
-                if newEntries:
-                    nextNodeIdx = newEntries[-1][1] + 1
-
                 self.__sendNextNodeIdx(node, nextNodeIdx=nextNodeIdx, success=True)
+
+                # Only entries up to the last one checked against the leader's log are known to match
+                leaderCommitIndex = min(leaderCommitIndex, nextNodeIdx - 1)
 
             # Install snapshot
             elif serialized is not None:
